@@ -375,12 +375,14 @@ func fileReadAux(L *LState, file *lFile, idx int) int {
 						}
 					}
 					_, err = fmt.Fscanf(file.reader, LNumberScanFormat, &v)
-					if err == io.EOF {
-						L.Push(LNil)
-						goto normalreturn
+					if _, ioerr := err.(*os.PathError); ioerr {
+						goto errreturn
 					}
 					if err != nil {
-						goto errreturn
+						// end of file or no numeral here: this format fails with nil
+						// and ends the call; the results read so far are kept
+						L.Push(LNil)
+						goto normalreturn
 					}
 					L.Push(v)
 				case 'a':
